@@ -351,6 +351,29 @@ def transport(base, cur, ins):
             if q is None:
                 q = len(ct)
             pos[p] = q
+    # consistent renames of a local identifier (x -> y wherever x occurred, x gone, y new): the specification text that
+    # mentions x is carried over with the same renaming (a rename changes no meaning; without this every renamed local
+    # that an invariant mentions would end undecided)
+    ren = {}
+    if bt != ct:
+        cand = {}
+        bad = set()
+        for tag, i1, i2, j1, j2 in ops:
+            if tag == 'replace' and i2 - i1 == j2 - j1:
+                for a, b in zip(bt[i1:i2], ct[j1:j2]):
+                    if a != b and re.fullmatch(r'[A-Za-z_][A-Za-z0-9_]*', a) and re.fullmatch(r'[A-Za-z_][A-Za-z0-9_]*', b):
+                        if cand.setdefault(a, b) != b:
+                            bad.add(a)
+        cts, bts = set(ct), set(bt)
+        kw = {'as', 'break', 'const', 'continue', 'crate', 'else', 'enum', 'extern', 'false', 'fn', 'for', 'if', 'impl', 'in', 'let',
+              'loop', 'match', 'mod', 'move', 'mut', 'pub', 'ref', 'return', 'self', 'Self', 'static', 'struct', 'super', 'trait',
+              'true', 'type', 'unsafe', 'use', 'where', 'while', 'async', 'await', 'dyn'}
+        # only LOCAL bindings: the old name is introduced by `let` / `let mut` / `for` in the frozen text
+        bound = set(bt[k + 1] for k in range(len(bt) - 1) if bt[k] in ('let', 'mut', 'for') and bt[k + 1] not in ('mut', '('))
+        for a, b in cand.items():
+            if (a not in bad and a not in kw and b not in kw and a in bound and a not in cts and b not in bts
+                    and list(cand.values()).count(b) == 1):
+                ren[a] = b
     out = []
     by_pos = {}
     for p in sorted(ins):
@@ -358,6 +381,8 @@ def transport(base, cur, ins):
     for k in range(len(cur) + 1):
         for run in by_pos.get(k, []):
             for t in run:
+                if ren and t.text in ren:
+                    t = Tok(ren[t.text], t.pre, t.pos, t.line)
                 out.append(('ghost', t))
         if k < len(cur):
             out.append(('repo', cur[k]))
